@@ -19,7 +19,8 @@ RULE = (
     'caps the sweep at 24 evenly spread levels per curve), passed on the command line as '
     'repr(k*step) and as the exact decimal product (e.g. -37.9); off-grid '
     'references (k+f)*step with f in {0.1 .. 0.9} and, at the level farthest '
-    'from 0 mm, f = 0.01 and -0.002; no reference. Both `rise '
+    'from 0 mm, f = 0.01 and -0.002; no reference; one reference run per curve '
+    'interrupted (KeyboardInterrupt at a late statement) and then repeated. Both `rise '
     '-r` and `recession -r`, each on a fresh copy of the classified file. '
     'Oracle: on-grid => the command succeeds, the master curve computed by '
     'the harness from the interval tables (keyed by zeta_number) is 0 at '
@@ -138,6 +139,43 @@ def check(case):
                     if (h not in (1.0, 0.5, 0.25, 2.0)) or (
                             k < 0 and float(text) / h != k):
                         counts['nontrivial-refs'] += 1
+            # an interrupted attempt (Ctrl-C while the curve is being stored)
+            # must not prevent assembling the curve with that reference
+            from vfw import faults
+            k = sweep[len(sweep) // 2]
+            text = repr(k * h)
+            shutil.copyfile(base, wf.db)
+            plan = faults.Plan('count')
+            with faults.injected(plan):
+                run(text)
+            n_statements = plan.count
+            shutil.copyfile(base, wf.db)
+            at = max(1, n_statements - 1 - int(
+                case['fractions'][0] * min(n_statements - 1, 40)))
+            plan = faults.Plan('fault', k=at, exception='interrupt')
+            try:
+                with faults.injected(plan):
+                    run(text)
+            except (Exception, KeyboardInterrupt):  # pylint: disable=broad-except
+                pass
+            try:
+                run(text)
+            except Exception as exc:  # pylint: disable=broad-except
+                raise Violation(
+                    '{}-reference-run-fails-after-interrupted-attempt'.format(
+                        which),
+                    'step {} reference {}: {!r}'.format(grid, text, exc)
+                ) from exc
+            connection = wf.connect()
+            retried = master(connection, which)
+            connection.close()
+            if set(retried) != set(plain) or abs(
+                    retried.get(k, 1e30)) > 1e-9 * scale:
+                raise Violation(
+                    '{}-reference-level-not-origin:after-interrupt'.format(
+                        which),
+                    'step {} reference {}'.format(grid, text))
+            counts['interrupted'] = counts.get('interrupted', 0) + 1
             # off-grid references
             shutil.copyfile(base, wf.db)
             before = _dump(wf.db)
